@@ -22,7 +22,7 @@ driver maps every byte `≥ 0x80` to a `Char` that no class accepts.
 API used by other properties: `P.PegF.Expr`, `P.PegF.Stmt`, `P.PegF.Tree`, `P.PegF.parse`,
 `P.PegF.showTree`, `P.PegF.pTree`. -/
 namespace P.PegF
-open P.Peg (P por ws lit ident pfail ppure uintLitFull isWs isIdStart isIdChar)
+open P.Peg (P por ws lit ident pfail ppure uintLitFull isWs isIdStart isIdChar shiftOp doubleOp addOp)
 
 inductive Expr where
   | operand (i : Int)
@@ -58,9 +58,8 @@ def parenP (rec : P Expr) : P Expr := do lit ['(']; ws; let x ← rec; ws; lit [
 /-- `BaseExpr <- ParenExpr / Operand` -/
 def base (rec : P Expr) : P Expr := por (parenP rec) operand
 
-def shiftOp : P Unit := por (lit "<<".toList) (lit "shl".toList)
-def doubleOp : P Unit := por (do lit ['2']; ws; lit ['*']) (lit "dbl".toList)
-def addOp : P Unit := por (lit ['+']) (lit "add".toList)
+/-! `AddOperator <- '+' / "add"`, `ShiftOperator <- "<<" / "shl"`,
+    `DoubleOperator <- '2' _ '*' / "dbl"`: `P.Peg.addOp`, `P.Peg.shiftOp`, `P.Peg.doubleOp`. -/
 
 def shiftAlt1 (rec : P Expr) : P Expr := do
   ws; let x ← base rec; ws; shiftOp; ws; let s ← uintLitFull; ws; pure (Expr.shift x s)
